@@ -4,16 +4,20 @@ C05  mktime: the valid search results are exactly the instants showing that loca
 "At instant u the zone's clock shows the searched date-time" is: the forward lookup (C03/C04/C12) at u
 gives type τ and u + τ.offset is the second count of the searched fields.
 
-PROVED (`*_partial` in the sense of the brief): zones WITHOUT a DST rule — table only, table + fixed
-rule, fixed rule only, single type; any table, any offsets, leap seconds included.
-NOT PROVED, and FALSE for all accepted zones: with a DST rule the statement fails for rules in the
-known-finding classes F1 (reverse order with a tie) and F2 (overlapping periods); `counterexample_F2`
-below is the proved witness (the same valid instant is returned twice). For DST rules outside those
-classes the property rests on the correspondence + oracle runs.
+PROVED (`*_partial` in the sense of the brief):
+ * zones WITHOUT a DST rule — table only, table + fixed rule, fixed rule only, single type; any table,
+   any offsets, leap seconds included (`*_partial`);
+ * zones WITH a DST rule (rule only, or table + rule) whose rule satisfies C04's hypotheses
+   (`RuleOK`: accepted shape, yearly instants interleave, no reverse-order tie — every IANA rule),
+   for searched years at least one year inside the year guard (`*_rule_partial`).
+FALSE for all accepted zones, hence the hypotheses: F1 (reverse order with a tie), F2 (overlapping
+periods; `counterexample_F2`: the same valid instant is returned twice) and F5 (`counterexample_F5`: in
+the outermost guarded year the search returns an instant the lookup refuses).
 -/
 import TzVerif.Model.Find
 import TzVerif.Spec.Zone
 import TzVerif.Proofs.Search
+import TzVerif.Proofs.SearchRule
 
 namespace TzVerif.C05
 open TzVerif.Model TzVerif.Proofs
@@ -53,6 +57,56 @@ theorem counterexample_F2 :
     findDateTime 2021 6 1 12 0 0 0
       { transitions := [], localTimeTypes := [std, dst], leapSeconds := [], extraRule := some (.alternate a) } =
         .ok [.normal x, .normal x] := by
+  decide +kernel
+
+/-! zones with a DST rule -/
+
+theorem results_show_the_local_time_rule_partial (y mo d h mi s ns : Int) (z : TimeZone) (a : AlternateTime) (rs : List Found)
+    (hz : ZoneOK z) (hr : z.extraRule = some (.alternate a)) (ha : RuleOK a)
+    (hf : findDateTime y mo d h mi s ns z = .ok rs) (x : DateTime) (hx : Found.normal x ∈ rs)
+    (hnn : 0 ≤ h ∧ 0 ≤ mi ∧ 0 ≤ s) (hy : i32Min + 3 ≤ y ∧ y ≤ i32Max - 3) :
+    z.findLocalTimeType x.unixTime = .ok x.localTimeType ∧
+    x.unixTime + x.localTimeType.utOffset = Spec.seconds y mo d h mi s :=
+  rule_search_sound y mo d h mi s ns z a rs hz hr ha hf x hx hnn hy
+
+theorem no_instant_missing_rule_partial (y mo d h mi s ns : Int) (z : TimeZone) (a : AlternateTime) (rs : List Found)
+    (hz : ZoneOK z) (hr : z.extraRule = some (.alternate a)) (ha : RuleOK a)
+    (hf : findDateTime y mo d h mi s ns z = .ok rs) (u : Int) (t : LocalTimeType)
+    (hu : i64Min ≤ u ∧ u ≤ i64Max)
+    (hl : z.findLocalTimeType u = .ok t) (hc : u + t.utOffset = Spec.seconds y mo d h mi s)
+    (hnn : 0 ≤ h ∧ 0 ≤ mi ∧ 0 ≤ s) :
+    ∃ x, Found.normal x ∈ rs ∧ x.unixTime = u ∧ x.localTimeType = t :=
+  rule_search_complete y mo d h mi s ns z a rs hz hr ha hf u t hu hl hc hnn
+
+theorem no_duplicates_rule_partial (y mo d h mi s ns : Int) (z : TimeZone) (a : AlternateTime) (rs : List Found)
+    (hz : ZoneOK z) (hr : z.extraRule = some (.alternate a)) (ha : RuleOK a)
+    (hf : findDateTime y mo d h mi s ns z = .ok rs) :
+    List.Pairwise (fun p q => p.unixTime < q.unixTime) (normalsOf rs) :=
+  rule_search_normals_strict y mo d h mi s ns z a rs hz hr ha hf
+
+/-- F5: year i32::MAX − 2, 31 December 23:30 in `EST5EDT,M3.2.0,M11.1.0`: the search returns an instant
+    (UTC year i32::MAX − 1) at which the forward lookup answers OutOfRange -/
+theorem counterexample_F5 :
+    let std : LocalTimeType := { utOffset := -18000, isDst := false, name := some [69, 83, 84] }
+    let dst : LocalTimeType := { utOffset := -14400, isDst := true, name := some [69, 68, 84] }
+    let a : AlternateTime := { std, dst, dstStart := .mwd 3 2 0, dstStartTime := 7200, dstEnd := .mwd 11 1 0, dstEndTime := 7200 }
+    let z : TimeZone := { transitions := [], localTimeTypes := [std, dst], leapSeconds := [], extraRule := some (.alternate a) }
+    let x : DateTime := { year := 2147483645, month := 12, monthDay := 31, hour := 23, minute := 30, second := 0,
+                          localTimeType := std, unixTime := 67767976170477000, nanoseconds := 0 }
+    AlternateTime.new std dst (.mwd 3 2 0) 7200 (.mwd 11 1 0) 7200 = .ok a ∧
+    findDateTime 2147483645 12 31 23 30 0 0 z = .ok [.normal x] ∧
+    z.findLocalTimeType x.unixTime = .error .outOfRange := by
+  decide +kernel
+
+/-- why `0 ≤ h, mi, s` (the unsigned Rust types) is a hypothesis: the model's integers are unbounded -/
+theorem model_artifact_negative_hour :
+    let std : LocalTimeType := { utOffset := -18000, isDst := false, name := some [69, 83, 84] }
+    let dst : LocalTimeType := { utOffset := -14400, isDst := true, name := some [69, 68, 84] }
+    let a : AlternateTime := { std, dst, dstStart := .mwd 3 2 0, dstStartTime := 7200, dstEnd := .mwd 11 1 0, dstEndTime := 7200 }
+    let z : TimeZone := { transitions := [], localTimeTypes := [std, dst], leapSeconds := [], extraRule := some (.alternate a) }
+    ∃ x, findDateTime 2021 1 1 (-14400) 0 0 0 z = .ok [.normal x] ∧ z.findLocalTimeType x.unixTime = .ok dst ∧ x.localTimeType = std := by
+  refine ⟨{ year := 2021, month := 1, monthDay := 1, hour := -14400, minute := 0, second := 0,
+            localTimeType := { utOffset := -18000, isDst := false, name := some [69, 83, 84] }, unixTime := 1557637200, nanoseconds := 0 }, ?_⟩
   decide +kernel
 
 end TzVerif.C05
